@@ -580,6 +580,9 @@ func parseValue(strValue string, baseType basetype.BaseType, profileType profile
 		if err != nil {
 			return
 		}
+		if math.IsNaN(v) { // "NaN" is how the invalid value is written
+			return proto.Float32(math.Float32frombits(basetype.Float32Invalid)), nil
+		}
 		return proto.Float32(float32(v)), nil
 	case basetype.Float64:
 		if isScaled {
@@ -589,6 +592,9 @@ func parseValue(strValue string, baseType basetype.BaseType, profileType profile
 		v, err = strconv.ParseFloat(strValue, 64)
 		if err != nil {
 			return
+		}
+		if math.IsNaN(v) { // "NaN" is how the invalid value is written
+			return proto.Float64(math.Float64frombits(basetype.Float64Invalid)), nil
 		}
 		return proto.Float64(v), nil
 	case basetype.Sint64:
